@@ -15,8 +15,11 @@ region documented in `REGIONS` below.
 Cases: per class, parameter vectors at declared bounds, defaults, exact branch values (lam = 0, +-1e-10,
 +-1.1e-10, 1e-8, 2, 2+-2.001e-5 ...), non-default mininu / minilam / base, unset constants (error expected), then
 random ones; inputs across the domain on a logarithmic grid from the edge, on the edge, outside (NaN expected),
-zero and NaN; for the delegating classes, histories of parameter changes between calls (the inner BoxCox2 is
-stale at the start of every call); for Softmax, 2-D arrays of 1..4 rows x 1..7 columns incl. rejected ones.
+zero and NaN; every parameter setting is exercised with forward, backward or jacobian as the FIRST call after the
+setting (chosen at random), and objects are reused: histories of parameter changes between calls and sessions of
+set-params / forward / backward / jacobian / backward_censored in random order, each call compared with the model
+whose inner BoxCox2 state is what the previous calls left (always for BoxCox1lam / BoxCox1nu / BoxCox2sym, every
+third configuration for the other classes); for Softmax, 2-D arrays of 1..4 rows x 1..7 columns incl. rejected ones.
 A case (one element of one call) is non-trivial when the reply is a finite number.
 """
 import json
@@ -754,24 +757,8 @@ def body(ctx):
                     f"argument by more than 1e-6 relative (or is NaN) inside the conditioning region",
                     {"class": cls, "params": P, what_in: a, "mid": b_, "back": back, "tolerance": tol})
 
-    def exercise(o, nin, note=""):
-        """all ops on one object in its current state + the oracle"""
-        cls = o.cls
-        P = o.P()
-        xs = x_inputs(cls, P, rng, nin)
-        st, y = submit(o, "fwd", xs, note=note)
-        submit(o, "jac", xs, note=note)
-        if st != "ok":
-            submit(o, "bwd", [0.5, 1.0], note=note)
-            return
-        yl = [float(v) for v in y]
-        # x-direction oracle (a separate real call: the object is used exactly as a user would)
-        st2, xb = o.call("bwd", yl)
-        o.after_call(st2)
-        if st2 == "ok":
-            for a, m_, bk in zip(xs, yl, xb):
-                judge(cls, P, "x", a, m_, float(bk), "x")
-        ys = [v for v in yl if v == v][: nin] + y_extra(cls, P, rng, max(6, nin // 3))
+    def ydir(o, P, ys, note):
+        """backward on image-side inputs (correspondence) + forward(backward(y)) oracle"""
         st3, xv = submit(o, "bwd", ys, note=note)
         if st3 == "ok":
             xl = [float(v) for v in xv]
@@ -779,11 +766,92 @@ def body(ctx):
             o.after_call(st4)
             if st4 == "ok":
                 for a, m_, bk in zip(ys, xl, yb):
-                    judge(cls, P, "y", a, m_, float(bk), "y")
+                    judge(o.cls, P, "y", a, m_, float(bk), "y")
+        return st3
+
+    def xdir(o, P, xs, note):
+        """forward on domain-side inputs (correspondence) + backward(forward(x)) oracle; returns the forward values"""
+        st, y = submit(o, "fwd", xs, note=note)
+        if st != "ok":
+            return st, None
+        yl = [float(v) for v in y]
+        # a separate real call: the object is used exactly as a user would
+        st2, xb = o.call("bwd", yl)
+        o.after_call(st2)
+        if st2 == "ok":
+            for a, m_, bk in zip(xs, yl, xb):
+                judge(o.cls, P, "x", a, m_, float(bk), "x")
+        return st, yl
+
+    def exercise(o, nin, note="", first=None):
+        """all ops on one object in its current state + the oracle. `first` = which public method is the first
+        call made on the object after its parameters were (re)set: forward, backward or jacobian."""
+        cls = o.cls
+        P = o.P()
+        if first is None:
+            first = rng.choice(["fwd", "fwd", "bwd", "bwd", "jac"])
+        xs = x_inputs(cls, P, rng, nin)
+        if first == "bwd":
+            ydir(o, P, y_extra(cls, P, rng, max(6, nin // 3)), note=(note + " backward-first").strip())
+        elif first == "jac":
+            submit(o, "jac", xs, note=(note + " jacobian-first").strip())
+        st, yl = xdir(o, P, xs, note)
+        if first != "jac":
+            submit(o, "jac", xs, note=note)
+        if st != "ok":
+            submit(o, "bwd", [0.5, 1.0], note=note)
+            return
+        ys = [v for v in yl if v == v][: nin] + y_extra(cls, P, rng, max(6, nin // 3))
+        ydir(o, P, ys, note)
         if cls not in NOCENS:
             for cz in (0.0, rng.choice(xs[:5]), 0.1):
                 if cz == cz:
                     submit(o, "cens", ys[: max(8, nin // 2)], censor=float(cz), note=note)
+
+    def mutate(o):
+        """change some parameters / constants of a live object (values drawn from the class's own pools)"""
+        cls = o.cls
+        if cls == "Identity":
+            return
+        cand = [pp for _, pp in configs(cls, rng, 8) if all(v is not None for v in pp.values())]
+        newp = rng.choice(cand)
+        keys = [k for k in newp if rng.random() < 0.6] or [rng.choice(list(newp))]
+        kw = {k: newp[k] for k in keys}
+        o.setp(**kw)
+        if cls == "BoxCox2sym":
+            p = o.P()
+            if p["nu"] < 0 or (p["nu"] == 0 and not p["lam"] > EPS):
+                o.setp(nu=0.3)
+
+    def session(o, nsteps, nin=12):
+        """a history on ONE reused object: set-params / forward / backward / jacobian / backward_censored in random
+        order, every call compared with the model (whose inner state is whatever the previous calls left)"""
+        cls = o.cls
+        for k in range(nsteps):
+            if rng.random() < 0.45:
+                mutate(o)
+            P = o.P()
+            ops = ["fwd", "bwd", "bwd", "jac"] + ([] if cls in NOCENS else ["cens"])
+            op = rng.choice(ops)
+            note = f"session step {k + 1}"
+            with_oracle = rng.random() < 0.5
+            if op == "fwd":
+                xs = x_inputs(cls, P, rng, nin)
+                if with_oracle:
+                    xdir(o, P, xs, note)
+                else:
+                    submit(o, "fwd", xs, note=note)
+            elif op == "jac":
+                submit(o, "jac", x_inputs(cls, P, rng, nin), note=note)
+            elif op == "bwd":
+                ys = y_extra(cls, P, rng, 8)
+                if with_oracle:
+                    ydir(o, P, ys, note)
+                else:
+                    submit(o, "bwd", ys, note=note)
+            else:
+                xs = [v for v in x_inputs(cls, P, rng, nin) if v == v]
+                submit(o, "cens", y_extra(cls, P, rng, 8), censor=float(rng.choice(xs[:5] + [0.0, 0.1])), note=note)
 
     # ---------------- corpus
     cdir = C.ROOT / "corpus" / PID
@@ -793,7 +861,7 @@ def body(ctx):
             o = Obj(T, cc["class"], cc.get("ctor", {}), cc.get("params", {}), cc.get("via_get", False))
             for stp in cc.get("steps", [{}]):
                 o.setp(**stp.get("set", {}))
-                exercise(o, 14, note="corpus:" + f.name)
+                exercise(o, 14, note="corpus:" + f.name, first=stp.get("first"))
 
     # ---------------- scalar classes
     ncfg = ctx.scale(120, 700)
@@ -836,6 +904,13 @@ def body(ctx):
                     else:
                         o.setp(xmax=10 ** rng.uniform(-2, 3), lam=rng.choice([0.0, 1e-10, 0.5, -2.0, 1e-3]))
                     exercise(o, max(12, nin // 3), note=f"history step {step + 1}")
+            # random call orders on the reused object (and on a fresh one: the first call may be any method)
+            if cls in STATEFUL:
+                session(o, ctx.scale(6, 8))
+                session(Obj(T, cls, ctor, {k: v for k, v in params.items() if v is not None}
+                            if all(v is not None for v in params.values()) else params, via_get=(i % 2 == 0)), 4)
+            elif i % 3 == 0 and cls != "Identity":
+                session(o, 4)
 
 
     # ---------------- dense sweeps of lam through the branch switches
